@@ -17,7 +17,7 @@ From Eino Require Import Base.Util Model.Errors Proofs.Errors Proofs.ErrorsRun P
 
 Definition plain_err (e : err) : bool := negb (is_interrupt_task e).
 Definition plain_behav (b : behav) : bool :=
-  match b with BRerun => false | BFail e | BItem e => plain_err e | _ => true end.
+  match b with BRerun => false | BFail e | BItem e | BPreFail e | BPostFail e => plain_err e | _ => true end.
 Definition plain_tool (t : tool) : bool := match t with TFail e => plain_err e | _ => true end.
 Definition plain_node (n : node) : bool :=
   match n with
@@ -119,6 +119,27 @@ Proof.
   destruct (negb stream).
   - destruct (first_tool_error false _ _); inversion Hex; reflexivity.
   - destruct (first_tool_error true _ _); inversion Hex. apply tool_conv_panics_plain.
+Qed.
+
+Lemma pre_error_quiet : forall stream items u, plain_items items = true -> plain_err u = true ->
+  is_interrupt_task (pre_error stream items u) = false.
+Proof.
+  intros stream items u Hit Hu. unfold pre_error. destruct (negb stream); [apply plain_err_false; exact Hu|].
+  destruct items as [|[e0|i] its].
+  - change (wrap_stream TransformByInvoke u) with (apply_ws [WStream TransformByInvoke] u).
+    rewrite interrupt_task_through_wrappers. apply plain_err_false. exact Hu.
+  - cbn [consume]. change (concat_fail TransformByInvoke e0) with (apply_ws [WConcat TransformByInvoke] e0).
+    rewrite interrupt_task_through_wrappers. eapply plain_items_In; [exact Hit|left; reflexivity].
+  - reflexivity.
+Qed.
+
+Lemma pre_fails_quiet : forall stream items st, forallb plain_node st = true -> plain_items items = true ->
+  quiet_errs (pre_fails stream items st).
+Proof.
+  intros stream items st Hst Hit e He. apply in_pre_fails in He. destruct He as [k [f [u [Hn ->]]]].
+  rewrite forallb_forall in Hst. specialize (Hst _ Hn). cbn [plain_node plain_behav] in Hst.
+  change (wrap_node k (Wrapf (pre_error stream items u))) with (apply_ws [WNode k; WWrapf] (pre_error stream items u)).
+  rewrite interrupt_task_through_wrappers. apply pre_error_quiet; assumption.
 Qed.
 
 (* ------------------------------------------------------------------ where self-panicking streams are allowed *)
@@ -231,8 +252,11 @@ Section Good.
     nres_good (lazy_free_node n) (exec_node F stream rec items canc n).
   Proof.
     intros rec items canc n Hrec Hn Hnl Hpl. destruct n as [k f b|k gi|k ts]; cbn [exec_node].
-    - destruct (exec_lambda stream items f b) as [it c|es|] eqn:Ex; cbn [nres_good]; auto.
-      + split; [eapply lambda_items_plain; eauto|].
+    - destruct (with_post stream b (exec_lambda stream items f b)) as [it c|es|] eqn:Ew; cbn [nres_good]; auto.
+      + assert (Ex : exec_lambda stream items f b = NOk it c).
+        { destruct b; cbn [with_post] in Ew; auto.
+          destruct (exec_lambda stream items f (BPostFail e)) as [[|[e0|i] its] c'|es'|]; discriminate. }
+        split; [eapply lambda_items_plain; eauto|].
         intros Hcf. pose proof (exec_lambda_safe stream items f b Hcf Hnl) as Hs.
         rewrite Ex in Hs. exact Hs.
       + eapply (leaf_errors_quiet stream items (NLam k f b)); eauto.
@@ -313,6 +337,9 @@ Section Good.
       unfold plain_stages in Hpcur. cbn [forallb] in Hpcur. apply andb_true_iff in Hpcur.
       destruct Hpcur as [Hpst Hprest].
       cbn [guarded_stages] in Hgcur. apply andb_true_iff in Hgcur. destruct Hgcur as [Hgst Hgrest].
+      destruct (pre_fails stream items st) as [|pf0 pfs] eqn:Epf.
+      2:{ cbv beta iota. rewrite (pre_panic_no_lazy stream items Hnl). cbn [gres_good].
+          rewrite <- Epf. apply pre_fails_quiet; assumption. }
       destruct (stage_good rec items st Hrec Hpst Hnl Hpl) as [S1 [S2 [S3 S4]]].
       set (rs := map (fun n => (node_key n, exec_node F stream rec items false n)) st) in *.
       destruct (any_fuel rs); [exact I|].
